@@ -109,6 +109,10 @@ def add_adjacent_partners(r, ref, t, vs):
 
 
 def make_case(r, mode, work, idx, tier):
+    if mode == 'asfs' and os.environ.get('VERIF_NESTED') != '1':
+        # variants nested in inserted segments are only generated on request (see DESIGN 12.6: the tool's output for them has
+        # defects that are not all classified, and is not deterministic run to run)
+        mode = 'as'
     kw = dict(n_genes=1, coding_p=0.8, max_exons=3, aa_len=(14, 30), nc_len=(50, 110))
     if mode == 'nf':
         kw.update(nf_p=0.6, coding_p=1.0)
